@@ -1,8 +1,23 @@
 /-
 C02 — oracle safety: > 66 % power, one vote per validator, applied once, in order.
-Model: `Model/Oracle.lean`. The invariants are proved for every history of votes (any
-validator, nonce, competing claim), tallies with an arbitrary power table each, periodic
-validator-nonce catch-up and governance nonce overrides.
+Model: `Model/Oracle.lean` (mirrors x/skyway/keeper/attestation.go, x/skyway/abci.go, keeper.go at the
+current HEAD). Everything below the marker is proved for EVERY history `run ops` of votes (any validator,
+nonce, competing claim, accepted or rejected), end-of-block tallies with an arbitrary power table each (with
+or without a failing observation event), periodic validator-nonce catch-up and governance nonce overrides.
+
+Ghost state and how it is tied down. `St.log` (with `epoch`, `epochStart`) is never read by the executable
+model. It is tied
+  * to the executable state by `log_matches_state` (an attestation is flagged observed iff the log has an
+    entry for it, exactly one, with the same claim), `minted_eq_sum_log` (the observable `minted` is the sum
+    over the log) and `cursor_consecutive` (the cursor is `epochStart` + number of entries of this epoch);
+  * to the op history by `effect_requires_quorum` (every entry was appended by a tally op of the history
+    whose power table gave the entry's voters more than 66 % of the table's total) and
+    `effect_voters_voted` (every one of those voters has an accepted vote op for that very claim earlier in
+    the history).
+External ASSUMPTIONS (named where used): claim hashes are collision free (a hash identifies the claim
+content; `applicable` and `amount` are functions of the hash); x/staking keeps `LastTotalPower` equal to
+the sum of the `LastValidatorPower` records (`totalOf`); validators stay bonded; pruning (1000 nonces
+behind the cursor) is not reached.
 -/
 import PalomaModel.Model.Oracle
 import PalomaModel.Gen.Consts
@@ -12,6 +27,16 @@ open List
 
 /-! ## helper lemmas -/
 section Lemmas
+
+theorem rev_induction {α : Type} {P : List α → Prop} (hnil : P []) (hsnoc : ∀ l a, P l → P (l ++ [a])) :
+    ∀ l, P l := by
+  have h : ∀ l : List α, P l.reverse := by
+    intro l
+    induction l with
+    | nil => simpa using hnil
+    | cons a l ih => simpa using hsnoc _ a ih
+  intro l
+  simpa using h l.reverse
 
 theorem addVote_nodup (votes : List Nat) (v : Nat) (h : votes.Nodup) : (addVote votes v).Nodup := by
   unfold addVote
@@ -25,19 +50,97 @@ theorem addVote_nodup (votes : List Nat) (v : Nat) (h : votes.Nodup) : (addVote 
     intro e; subst e
     exact hc (by simpa using ha)
 
-theorem mem_putAtt {l : List Att} {a x : Att} (h : x ∈ putAtt l a) : x = a ∨ x ∈ l := by
+theorem mem_addVote {votes : List Nat} {v w : Nat} (h : w ∈ addVote votes v) : w ∈ votes ∨ w = v := by
+  unfold addVote at h
+  split at h
+  · left; exact h
+  · simpa using h
+
+/-- two attestations are stored under the same key -/
+def sameKey (a b : Att) : Prop := a.nonce = b.nonce ∧ a.hash = b.hash
+
+theorem mem_putAtt {l : List Att} {a x : Att} (h : x ∈ putAtt l a) : x = a ∨ (x ∈ l ∧ ¬ sameKey x a) := by
   unfold putAtt at h
   split at h
   · rcases List.mem_map.mp h with ⟨y, hy, rfl⟩
     split
     · left; rfl
-    · right; exact hy
-  · rcases List.mem_append.mp h with h | h
-    · right; exact h
+    · rename_i hk
+      right; refine ⟨hy, ?_⟩
+      intro hs; apply hk; simp [hs.1, hs.2]
+  · rename_i hany
+    rcases List.mem_append.mp h with h | h
+    · right; refine ⟨h, ?_⟩
+      intro hs; apply hany
+      exact List.any_eq_true.mpr ⟨x, h, by simp [hs.1, hs.2]⟩
     · left; simpa using h
+
+theorem mem_putAtt_self (l : List Att) (a : Att) : a ∈ putAtt l a := by
+  unfold putAtt
+  split
+  · rename_i hany
+    rcases List.any_eq_true.mp hany with ⟨x, hx, hk⟩
+    exact List.mem_map.mpr ⟨x, hx, by simp [hk]⟩
+  · simp
+
+theorem mem_putAtt_of_ne {l : List Att} {a x : Att} (hx : x ∈ l) (hk : ¬ sameKey x a) : x ∈ putAtt l a := by
+  unfold putAtt
+  have hk' : (x.nonce == a.nonce && x.hash == a.hash) = false := by
+    cases h : (x.nonce == a.nonce && x.hash == a.hash)
+    · rfl
+    · exfalso; apply hk
+      simp only [Bool.and_eq_true, beq_iff_eq] at h
+      exact h
+  split
+  · exact List.mem_map.mpr ⟨x, hx, by simp [hk']⟩
+  · exact List.mem_append.mpr (Or.inl hx)
+
+/-- distinct store keys -/
+def KeysDistinct (l : List Att) : Prop := l.Pairwise (fun a b => ¬ sameKey a b)
+
+theorem keys_unique {l : List Att} (h : KeysDistinct l) {a b : Att} (ha : a ∈ l) (hb : b ∈ l)
+    (hk : sameKey a b) : a = b := by
+  unfold KeysDistinct at h
+  rcases List.mem_iff_getElem.mp ha with ⟨i, hi, rfl⟩
+  rcases List.mem_iff_getElem.mp hb with ⟨j, hj, rfl⟩
+  have hp := List.pairwise_iff_getElem.mp h
+  rcases Nat.lt_trichotomy i j with hij | hij | hij
+  · exact absurd hk (hp i j hi hj hij)
+  · subst hij; rfl
+  · exact absurd ⟨hk.1.symm, hk.2.symm⟩ (hp j i hj hi hij)
+
+theorem putAtt_keys {l : List Att} (a : Att) (h : KeysDistinct l) : KeysDistinct (putAtt l a) := by
+  unfold KeysDistinct at *
+  unfold putAtt
+  split
+  · rw [List.pairwise_map]
+    refine h.imp ?_
+    intro x y hxy hs
+    apply hxy
+    unfold sameKey at *
+    split at hs <;> split at hs <;> rename_i h1 h2 <;>
+      simp only [Bool.and_eq_true, beq_iff_eq] at h1 h2 <;> omega
+  · rename_i hany
+    rw [List.pairwise_append]
+    refine ⟨h, by simp, ?_⟩
+    intro x hx y hy hs
+    simp at hy; subst hy
+    apply hany
+    exact List.any_eq_true.mpr ⟨x, hx, by simp [hs.1, hs.2]⟩
 
 theorem findAtt_mem {l : List Att} {n h : Nat} {a : Att} (hf : findAtt l n h = some a) : a ∈ l :=
   List.mem_of_find?_eq_some hf
+
+theorem findAtt_key {l : List Att} {n h : Nat} {a : Att} (hf : findAtt l n h = some a) :
+    a.nonce = n ∧ a.hash = h := by
+  have := List.find?_some hf
+  simpa using this
+
+theorem findAtt_none {l : List Att} {n h : Nat} (hf : findAtt l n h = none) :
+    ∀ a ∈ l, ¬ (a.nonce = n ∧ a.hash = h) := by
+  intro a ha hk
+  have := List.find?_eq_none.mp hf a ha
+  apply this; simp [hk.1, hk.2]
 
 theorem mem_insertByHash {a x : Att} {l : List Att} (h : x ∈ insertByHash a l) : x = a ∨ x ∈ l := by
   induction l with
@@ -82,232 +185,1072 @@ theorem reaches_sum (power : Nat → Nat) (required : Nat) (votes : List Nat) (a
     · have := ih _ h
       simp only [List.map_cons, List.sum_cons]; omega
 
-/-- the C02 invariant -/
-structure Inv (s : St) : Prop where
-  nodup : ∀ a ∈ s.atts, a.votes.Nodup
-  /-- every observation happened exactly at cursor + 1 -/
-  step1 : ∀ e ∈ s.observations, e.nonce = e.cursorBefore + 1
-  /-- observations of an epoch: strictly increasing nonces, all ≤ cursor -/
-  incr : s.observations.Pairwise (fun a b => a.nonce < b.nonce)
-  le : ∀ e ∈ s.observations, e.nonce ≤ s.lastObserved
-  /-- effects are a sub-sequence of the observations -/
-  sub : s.effects.Sublist s.observations
+/-- the strict quorum test of `TryAttestation`, in the property's words: more than 66 % of the total -/
+theorem reaches_quorum (power : Nat → Nat) (total : Nat) (votes : List Nat)
+    (h : reaches power (requiredPower total) votes 0 = true) : 100 * (votes.map power).sum > 66 * total := by
+  have := reaches_sum power _ votes 0 h
+  simp only [requiredPower, votesPowerThreshold, powerDivisor] at this
+  omega
 
-theorem inv_init : Inv St.init := by
-  constructor <;> simp [St.init]
+theorem not_reaches_of_le (power : Nat → Nat) (total : Nat) (votes : List Nat)
+    (h : 100 * (votes.map power).sum ≤ 66 * total) : reaches power (requiredPower total) votes 0 = false := by
+  cases hr : reaches power (requiredPower total) votes 0
+  · rfl
+  · have := reaches_quorum power total votes hr; omega
 
-theorem attFor_nodup (s : St) (n h eth : Nat) (ap : Bool) (amt : Nat) (hi : ∀ a ∈ s.atts, a.votes.Nodup) :
-    (attFor s n h eth ap amt).votes.Nodup := by
-  unfold attFor
-  cases hf : findAtt s.atts n h with
-  | none => simp
-  | some a => simpa using hi a (findAtt_mem hf)
+/-! ### the power table -/
 
-theorem vote_inv (s : St) (v n h eth : Nat) (ap : Bool) (amt : Nat) (hi : Inv s) :
-    Inv (vote s v n h eth ap amt).1 := by
-  unfold vote
-  split
-  · exact hi
-  · split
-    · exact hi
-    · constructor
-      · intro a ha
-        rcases mem_putAtt ha with rfl | ha
-        · exact addVote_nodup _ _ (attFor_nodup s n h eth ap amt hi.nodup)
-        · exact hi.nodup a ha
-      · exact hi.step1
-      · exact hi.incr
-      · exact hi.le
-      · exact hi.sub
+theorem powerOf_cons (k w : Nat) (tbl : List (Nat × Nat)) (v : Nat) :
+    powerOf ((k, w) :: tbl) v = if k = v then w else powerOf tbl v := by
+  unfold powerOf
+  rw [List.find?_cons]
+  by_cases h : k = v
+  · simp [h]
+  · have : ((k, w).1 == v) = false := by simp [h]
+    simp [this, h]
 
-theorem tryAtt_inv (s : St) (a : Att) (power : Nat → Nat) (total : Nat) (ef : EventFault) (hi : Inv s)
-    (ha : a.votes.Nodup) : Inv (tryAtt s a power total ef).1 := by
-  unfold tryAtt
-  split
-  · exact hi
-  · split
-    · exact hi
-    · split
-      · exact hi
-      · rename_i hn
-        have hn' : a.nonce = s.lastObserved + 1 := by simpa using hn
-        split
-        · constructor
-          · exact hi.nodup
-          · exact hi.step1
-          · exact hi.incr
-          · intro e he; have := hi.le e he; simp only; omega
-          · exact hi.sub
-        · constructor
-          · intro x hx
-            rcases mem_putAtt hx with rfl | hx
-            · exact ha
-            · exact hi.nodup x hx
-          · intro e he
-            simp only [List.mem_append, List.mem_singleton] at he
-            rcases he with he | rfl
-            · exact hi.step1 e he
-            · simp [hn']
-          · simp only
-            rw [List.pairwise_append]
-            refine ⟨hi.incr, by simp, ?_⟩
-            intro x hx y hy
-            simp at hy; subst hy
-            have := hi.le x hx; simp only; omega
-          · intro e he
-            simp only [List.mem_append, List.mem_singleton] at he
-            rcases he with he | rfl
-            · have := hi.le e he; simp only; omega
-            · simp
-          · simp only
-            split
-            · exact List.Sublist.append hi.sub (List.Sublist.refl _)
-            · exact hi.sub.trans (List.sublist_append_left _ _)
+theorem filter_ne_cons_eq (k w v : Nat) (rest : List (Nat × Nat)) (h : k = v) :
+    ((k, w) :: rest).filter (fun p => p.1 != v) = rest.filter (fun p => p.1 != v) := by
+  simp [h]
 
-theorem tallyAtts_inv (power : Nat → Nat) (total n : Nat) (ef : EventFault) (as : List Att) :
-    ∀ s, Inv s → (∀ a ∈ as, a.votes.Nodup) → Inv (tallyAtts s power total n ef as).1 := by
+theorem filter_ne_cons_ne (k w v : Nat) (rest : List (Nat × Nat)) (h : ¬ k = v) :
+    ((k, w) :: rest).filter (fun p => p.1 != v) = (k, w) :: rest.filter (fun p => p.1 != v) := by
+  simp [h]
+
+theorem powerOf_filter_ne (tbl : List (Nat × Nat)) (v u : Nat) (h : u ≠ v) :
+    powerOf (tbl.filter (fun p => p.1 != v)) u = powerOf tbl u := by
+  induction tbl with
+  | nil => rfl
+  | cons p rest ih =>
+    obtain ⟨k, w⟩ := p
+    by_cases hk : k = v
+    · rw [filter_ne_cons_eq k w v rest hk, powerOf_cons, ih]
+      have : ¬ k = u := fun e => h (by omega)
+      simp [this]
+    · rw [filter_ne_cons_ne k w v rest hk, powerOf_cons, powerOf_cons, ih]
+
+theorem totalOf_cons (k w : Nat) (rest : List (Nat × Nat)) : totalOf ((k, w) :: rest) = w + totalOf rest := by
+  simp [totalOf]
+
+theorem totalOf_split (tbl : List (Nat × Nat)) (v : Nat) :
+    powerOf tbl v + totalOf (tbl.filter (fun p => p.1 != v)) ≤ totalOf tbl := by
+  induction tbl with
+  | nil => simp [powerOf, totalOf]
+  | cons p rest ih =>
+    obtain ⟨k, w⟩ := p
+    by_cases hk : k = v
+    · rw [filter_ne_cons_eq k w v rest hk, powerOf_cons, totalOf_cons]
+      simp only [hk, if_true]
+      omega
+    · rw [filter_ne_cons_ne k w v rest hk, powerOf_cons, totalOf_cons, totalOf_cons]
+      simp only [hk, if_false]
+      omega
+
+/-- the summed power of distinct voters never exceeds the table's total: "more than 66 % of the total" is a
+genuine fraction of the bonded power, every validator's row being counted at most once -/
+theorem voters_power_le_total (voters : List Nat) (hnd : voters.Nodup) :
+    ∀ tbl : List (Nat × Nat), (voters.map (powerOf tbl)).sum ≤ totalOf tbl := by
+  induction voters with
+  | nil => intro tbl; simp
+  | cons v vs ih =>
+    intro tbl
+    have hv : v ∉ vs := (List.nodup_cons.mp hnd).1
+    have hvs : vs.Nodup := (List.nodup_cons.mp hnd).2
+    have h1 := ih hvs (tbl.filter (fun p => p.1 != v))
+    have h2 : vs.map (powerOf (tbl.filter (fun p => p.1 != v))) = vs.map (powerOf tbl) := by
+      apply List.map_congr_left
+      intro u hu
+      exact powerOf_filter_ne tbl v u (fun e => hv (e ▸ hu))
+    rw [h2] at h1
+    have h3 := totalOf_split tbl v
+    simp only [List.map_cons, List.sum_cons]
+    omega
+
+/-! ### the loops of `attestationTally` -/
+
+theorem tallyAtts_induct (P : St → Prop) (power : Nat → Nat) (total n : Nat) (ef : EventFault) :
+    ∀ (as : List Att),
+      (∀ s a, P s → a ∈ as → n = s.lastObserved + 1 → P (tryAtt s a power total ef).1) →
+      ∀ s, P s → P (tallyAtts s power total n ef as).1 := by
+  intro as
   induction as with
-  | nil => intro s hi _; exact hi
+  | nil => intro _ s h; exact h
   | cons a rest ih =>
-    intro s hi hnd
+    intro hstep s hp
     unfold tallyAtts
-    have ha := hnd a (by simp)
-    have hrest : ∀ x ∈ rest, x.votes.Nodup := fun x hx => hnd x (by simp [hx])
+    have ih' := ih (fun s x hp hx hn => hstep s x hp (by simp [hx]) hn)
     split
-    · split
-      · exact tryAtt_inv s a power total ef hi ha
-      · exact ih _ (tryAtt_inv s a power total ef hi ha) hrest
-    · exact ih _ hi hrest
+    · rename_i hn
+      split
+      · exact hstep s a hp (by simp) hn
+      · exact ih' _ (hstep s a hp (by simp) hn)
+    · exact ih' _ hp
 
-theorem tallyKeys_inv (snap : List Att) (power : Nat → Nat) (total : Nat) (ef : EventFault) (keys : List Nat)
-    (hsnap : ∀ a ∈ snap, a.votes.Nodup) : ∀ s, Inv s → Inv (tallyKeys s snap power total ef keys) := by
+theorem tallyKeys_induct (P : St → Prop) (snap : List Att) (power : Nat → Nat) (total : Nat) (ef : EventFault)
+    (hstep : ∀ s a, P s → a ∈ snap → a.nonce = s.lastObserved + 1 → P (tryAtt s a power total ef).1) :
+    ∀ (keys : List Nat) s, P s → P (tallyKeys s snap power total ef keys) := by
+  intro keys
   induction keys with
-  | nil => intro s hi; exact hi
+  | nil => intro s h; exact h
   | cons n rest ih =>
-    intro s hi
+    intro s hp
     unfold tallyKeys
-    have h1 := tallyAtts_inv power total n ef (attsAt snap n) s hi (fun a ha => hsnap a (mem_attsAt ha).1)
+    have h1 : P (tallyAtts s power total n ef (attsAt snap n)).1 :=
+      tallyAtts_induct P power total n ef (attsAt snap n)
+        (fun s a hp ha hn => hstep s a hp (mem_attsAt ha).1 (by rw [(mem_attsAt ha).2]; exact hn)) s hp
     split
     · exact h1
     · exact ih _ h1
 
-theorem tally_inv (s : St) (power : Nat → Nat) (total : Nat) (ef : EventFault) (hi : Inv s) : Inv (tally s power total ef) :=
-  tallyKeys_inv s.atts power total ef _ hi.nodup s hi
+/-- induction principle for a whole tally: `TryAttestation` is only ever called on attestations of the
+mapping read at the start, and only on one whose nonce is the cursor + 1 at that moment -/
+theorem tally_induct (P : St → Prop) (s0 : St) (power : Nat → Nat) (total : Nat) (ef : EventFault)
+    (hstep : ∀ s a, P s → a ∈ s0.atts → a.nonce = s.lastObserved + 1 → P (tryAtt s a power total ef).1)
+    (h0 : P s0) : P (tally s0 power total ef) :=
+  tallyKeys_induct P s0.atts power total ef hstep _ s0 h0
+
+/-- `TryAttestation` either leaves the state untouched or performs `observe` under its four guards -/
+theorem tryAtt_cases (s : St) (a : Att) (power : Nat → Nat) (total : Nat) (ef : EventFault) :
+    (tryAtt s a power total ef).1 = s ∨
+    (a.observed = false ∧ reaches power (requiredPower total) a.votes 0 = true ∧
+      a.nonce = s.lastObserved + 1 ∧ s.lastEth ≤ a.eth ∧ (tryAtt s a power total ef).1 = observe s a) := by
+  unfold tryAtt
+  split
+  · left; rfl
+  · rename_i h1
+    split
+    · left; rfl
+    · rename_i h2
+      split
+      · left; rfl
+      · rename_i h3
+        split
+        · left; rfl
+        · rename_i h4
+          right
+          refine ⟨by simpa using h1, by simpa using h2, by simpa using h3, by omega, rfl⟩
+
+/-! ### the invariant -/
+
+/-- the C02 invariant -/
+structure Inv (s : St) : Prop where
+  nodup : ∀ a ∈ s.atts, a.votes.Nodup
+  keys : KeysDistinct s.atts
+  /-- the cursor stands exactly as many nonces behind the last reset as claims were observed since -/
+  cursor : s.lastObserved = s.epochStart + s.observations.length
+  /-- ... and these observations are the consecutive nonces after the reset value -/
+  consec : s.observations.map (·.nonce) = List.range' (s.epochStart + 1) s.observations.length
+  before : ∀ o ∈ s.log, o.nonce = o.cursorBefore + 1
+  epochLe : ∀ o ∈ s.log, o.epoch ≤ s.epoch
+  minted : s.minted = (s.log.map Obs.mint).sum
+  obsAtt : ∀ o ∈ s.log, ∃ a ∈ s.atts, a.nonce = o.nonce ∧ a.hash = o.hash ∧ a.observed = true ∧
+    a.applicable = o.applicable ∧ a.amount = o.amount ∧ a.eth = o.eth
+  attObs : ∀ a ∈ s.atts, a.observed = true → ∃ o ∈ s.log, o.nonce = a.nonce ∧ o.hash = a.hash
+  uniq : s.log.Pairwise (fun o o' => ¬ (o.nonce = o'.nonce ∧ o.hash = o'.hash))
+  ethLe : ∀ o ∈ s.log, o.eth ≤ s.lastEth
+  ethMono : s.log.Pairwise (fun o o' => o.eth ≤ o'.eth)
+
+theorem inv_init : Inv St.init := by
+  constructor <;> simp [St.init, St.observations, KeysDistinct]
+
+theorem attFor_cases (s : St) (n h eth : Nat) (ap : Bool) (amt : Nat) :
+    (attFor s n h eth ap amt ∈ s.atts ∧ (attFor s n h eth ap amt).nonce = n ∧ (attFor s n h eth ap amt).hash = h) ∨
+    ((∀ a ∈ s.atts, ¬ (a.nonce = n ∧ a.hash = h)) ∧
+      attFor s n h eth ap amt =
+        { nonce := n, hash := h, eth := eth, votes := [], observed := false, applicable := ap, amount := amt }) := by
+  unfold attFor
+  cases hf : findAtt s.atts n h with
+  | none => right; exact ⟨findAtt_none hf, rfl⟩
+  | some a => left; exact ⟨findAtt_mem hf, findAtt_key hf⟩
+
+/-- what an accepted vote stores: the attestation of that key with the voter added, everything else as it was -/
+def voted (s : St) (v n h eth : Nat) (ap : Bool) (amt : Nat) : Att :=
+  { attFor s n h eth ap amt with votes := addVote (attFor s n h eth ap amt).votes v }
+
+theorem vote_cases (s : St) (v n h eth : Nat) (ap : Bool) (amt : Nat) :
+    ((vote s v n h eth ap amt).2 = .rejected ∧ (vote s v n h eth ap amt).1 = s) ∨
+    ((vote s v n h eth ap amt).2 = .ok ∧ n = lastNonceOf s v + 1 ∧ (attFor s n h eth ap amt).eth = eth ∧
+      (vote s v n h eth ap amt).1 =
+        { s with atts := putAtt s.atts (voted s v n h eth ap amt), valNonce := setNonce s.valNonce v n }) := by
+  unfold vote
+  split
+  · left; exact ⟨rfl, rfl⟩
+  · rename_i h1
+    split
+    · left; exact ⟨rfl, rfl⟩
+    · rename_i h2
+      right
+      exact ⟨rfl, by simpa using h1, by simpa using h2, rfl⟩
+
+theorem vote_inv (s : St) (v n h eth : Nat) (ap : Bool) (amt : Nat) (hi : Inv s) :
+    Inv (vote s v n h eth ap amt).1 := by
+  rcases vote_cases s v n h eth ap amt with ⟨_, he⟩ | ⟨_, _, _, he⟩
+  · rw [he]; exact hi
+  · rw [he]
+    have hx : ∀ a ∈ s.atts, sameKey a (voted s v n h eth ap amt) → attFor s n h eth ap amt = a := by
+      intro a ha hk
+      rcases attFor_cases s n h eth ap amt with ⟨hm, hn, hh⟩ | ⟨hno, _⟩
+      · apply keys_unique hi.keys hm ha
+        unfold sameKey voted at *
+        simp only at hk
+        omega
+      · exfalso
+        apply hno a ha
+        rcases attFor_cases s n h eth ap amt with ⟨_, hn, hh⟩ | ⟨_, hq⟩
+        · unfold sameKey voted at hk; simp only at hk; omega
+        · unfold sameKey voted at hk; simp only [hq] at hk; exact hk
+    constructor
+    · intro a ha
+      rcases mem_putAtt ha with rfl | ⟨ha, _⟩
+      · apply addVote_nodup
+        rcases attFor_cases s n h eth ap amt with ⟨hm, _, _⟩ | ⟨_, hq⟩
+        · exact hi.nodup _ hm
+        · rw [hq]; simp
+      · exact hi.nodup a ha
+    · exact putAtt_keys _ hi.keys
+    · exact hi.cursor
+    · exact hi.consec
+    · exact hi.before
+    · exact hi.epochLe
+    · exact hi.minted
+    · intro o ho
+      obtain ⟨a, ha, h1, h2, h3, h4, h5, h6⟩ := hi.obsAtt o ho
+      by_cases hk : sameKey a (voted s v n h eth ap amt)
+      · refine ⟨voted s v n h eth ap amt, mem_putAtt_self _ _, ?_⟩
+        have := hx a ha hk
+        unfold voted
+        simp only [this]
+        exact ⟨h1, h2, h3, h4, h5, h6⟩
+      · exact ⟨a, mem_putAtt_of_ne ha hk, h1, h2, h3, h4, h5, h6⟩
+    · intro a ha hobs
+      rcases mem_putAtt ha with rfl | ⟨ha, _⟩
+      · rcases attFor_cases s n h eth ap amt with ⟨hm, _, _⟩ | ⟨_, hq⟩
+        · exact hi.attObs (attFor s n h eth ap amt) hm hobs
+        · unfold voted at hobs; simp [hq] at hobs
+      · exact hi.attObs a ha hobs
+    · exact hi.uniq
+    · exact hi.ethLe
+    · exact hi.ethMono
+
+theorem observations_observe (s : St) (a : Att) :
+    (observe s a).observations = s.observations ++ [mkObs s a] := by
+  simp [St.observations, observe, mkObs, List.filter_append]
+
+theorem observe_inv (s : St) (a : Att) (hi : Inv s) (ha : a ∈ s.atts) (hobs : a.observed = false)
+    (hn : a.nonce = s.lastObserved + 1) (he : s.lastEth ≤ a.eth) : Inv (observe s a) := by
+  have hfresh : ∀ o ∈ s.log, ¬ (o.nonce = a.nonce ∧ o.hash = a.hash) := by
+    intro o ho hk
+    obtain ⟨a', ha', h1, h2, h3, _⟩ := hi.obsAtt o ho
+    have : a' = a := keys_unique hi.keys ha' ha ⟨by omega, by omega⟩
+    subst this
+    simp [hobs] at h3
+  constructor
+  · intro x hx
+    rcases mem_putAtt hx with rfl | ⟨hx, _⟩
+    · exact hi.nodup a ha
+    · exact hi.nodup x hx
+  · exact putAtt_keys _ hi.keys
+  · rw [observations_observe]
+    have := hi.cursor
+    simp only [observe, List.length_append, List.length_singleton]
+    omega
+  · rw [observations_observe]
+    simp only [List.map_append, List.map_cons, List.map_nil, List.length_append, List.length_singleton]
+    rw [List.range'_concat, hi.consec]
+    have := hi.cursor
+    simp only [observe, mkObs]
+    congr 2
+    omega
+  · intro o ho
+    simp only [observe, List.mem_append, List.mem_singleton] at ho
+    rcases ho with ho | rfl
+    · exact hi.before o ho
+    · simp [mkObs, hn]
+  · intro o ho
+    simp only [observe, List.mem_append, List.mem_singleton] at ho
+    rcases ho with ho | rfl
+    · exact hi.epochLe o ho
+    · simp [mkObs, observe]
+  · simp only [observe, List.map_append, List.map_cons, List.map_nil, List.sum_append, List.sum_cons, List.sum_nil]
+    have := hi.minted
+    cases hap : a.applicable <;> simp [Obs.mint, mkObs, hap] <;> omega
+  · intro o ho
+    simp only [observe, List.mem_append, List.mem_singleton] at ho
+    rcases ho with ho | rfl
+    · obtain ⟨a', ha', h1, h2, h3, h4, h5, h6⟩ := hi.obsAtt o ho
+      refine ⟨a', mem_putAtt_of_ne ha' ?_, h1, h2, h3, h4, h5, h6⟩
+      intro hk
+      exact hfresh o ho ⟨by unfold sameKey at hk; simp only at hk; omega, by unfold sameKey at hk; simp only at hk; omega⟩
+    · exact ⟨{ a with observed := true }, mem_putAtt_self _ _, by simp [mkObs]⟩
+  · intro x hx hxo
+    simp only [observe] at hx ⊢
+    rcases mem_putAtt hx with rfl | ⟨hx, _⟩
+    · exact ⟨mkObs s a, by simp, by simp [mkObs]⟩
+    · obtain ⟨o, ho, h1, h2⟩ := hi.attObs x hx hxo
+      exact ⟨o, by simp [ho], h1, h2⟩
+  · simp only [observe]
+    rw [List.pairwise_append]
+    refine ⟨hi.uniq, by simp, ?_⟩
+    intro o ho o' ho'
+    simp only [List.mem_singleton] at ho'
+    subst ho'
+    simpa [mkObs] using hfresh o ho
+  · intro o ho
+    simp only [observe, List.mem_append, List.mem_singleton] at ho ⊢
+    rcases ho with ho | rfl
+    · have := hi.ethLe o ho; omega
+    · simp [mkObs]
+  · simp only [observe]
+    rw [List.pairwise_append]
+    refine ⟨hi.ethMono, by simp, ?_⟩
+    intro o ho o' ho'
+    simp only [List.mem_singleton] at ho'
+    subst ho'
+    have := hi.ethLe o ho
+    simp only [mkObs]; omega
+
+/-- every attestation of the mapping read at the start of a tally is still stored unchanged, unless its
+nonce has been passed by the cursor in the meantime -/
+def Tracks (s0 s : St) : Prop := ∀ x ∈ s0.atts, x ∈ s.atts ∨ x.nonce ≤ s.lastObserved
+
+theorem observe_tracks (s0 s : St) (a : Att) (hn : a.nonce = s.lastObserved + 1) (ht : Tracks s0 s) :
+    Tracks s0 (observe s a) := by
+  intro x hx
+  rcases ht x hx with h | h
+  · by_cases hk : sameKey x { a with observed := true }
+    · right; unfold sameKey at hk; simp only [observe] at hk ⊢; omega
+    · left; exact mem_putAtt_of_ne h hk
+  · right; simp only [observe]; omega
+
+/-- tally induction with the invariant carried along: in the step the attestation handed to
+`TryAttestation` is known to be the one currently stored -/
+theorem tally_induct_inv (P : St → Prop) (s0 : St) (power : Nat → Nat) (total : Nat) (ef : EventFault)
+    (hi0 : Inv s0)
+    (hstep : ∀ s a, Inv s → P s → a ∈ s.atts → a ∈ s0.atts → a.observed = false →
+      reaches power (requiredPower total) a.votes 0 = true → a.nonce = s.lastObserved + 1 → s.lastEth ≤ a.eth →
+      P (observe s a))
+    (h0 : P s0) : Inv (tally s0 power total ef) ∧ P (tally s0 power total ef) := by
+  have := tally_induct (fun s => Inv s ∧ Tracks s0 s ∧ P s) s0 power total ef ?_ ⟨hi0, fun x hx => Or.inl hx, h0⟩
+  · exact ⟨this.1, this.2.2⟩
+  · intro s a ⟨hi, ht, hp⟩ ha0 hn
+    rcases tryAtt_cases s a power total ef with he | ⟨h1, h2, h3, h4, he⟩
+    · rw [he]; exact ⟨hi, ht, hp⟩
+    · rw [he]
+      have ha : a ∈ s.atts := by
+        rcases ht a ha0 with h | h
+        · exact h
+        · omega
+      exact ⟨observe_inv s a hi ha h1 h3 h4, observe_tracks s0 s a h3 ht, hstep s a hi hp ha ha0 h1 h2 h3 h4⟩
+
+theorem tally_inv (s : St) (power : Nat → Nat) (total : Nat) (ef : EventFault) (hi : Inv s) :
+    Inv (tally s power total ef) :=
+  (tally_induct_inv (fun _ => True) s power total ef hi (fun _ _ _ _ _ _ _ _ _ _ => trivial) trivial).1
 
 theorem catchUp_inv (s : St) (hi : Inv s) : Inv (catchUp s) := by
   constructor
   · exact hi.nodup
-  · exact hi.step1
-  · exact hi.incr
-  · exact hi.le
-  · exact hi.sub
+  · exact hi.keys
+  · exact hi.cursor
+  · exact hi.consec
+  · exact hi.before
+  · exact hi.epochLe
+  · exact hi.minted
+  · exact hi.obsAtt
+  · exact hi.attObs
+  · exact hi.uniq
+  · exact hi.ethLe
+  · exact hi.ethMono
+
+theorem observations_override (s : St) (n : Nat) (hi : Inv s) : (override s n).observations = [] := by
+  simp only [St.observations, override]
+  rw [List.filter_eq_nil_iff]
+  intro o ho
+  have := hi.epochLe o ho
+  simp only [beq_iff_eq]
+  omega
 
 theorem override_inv (s : St) (n : Nat) (hi : Inv s) : Inv (override s n) := by
   constructor
   · exact hi.nodup
-  · intro e he; simp [override] at he
-  · simp [override]
-  · intro e he; simp [override] at he
-  · simp [override]
+  · exact hi.keys
+  · rw [observations_override s n hi]; simp [override]
+  · rw [observations_override s n hi]; simp
+  · exact hi.before
+  · intro o ho
+    have := hi.epochLe o ho
+    simp only [override]; omega
+  · exact hi.minted
+  · exact hi.obsAtt
+  · exact hi.attObs
+  · exact hi.uniq
+  · exact hi.ethLe
+  · exact hi.ethMono
 
-end Lemmas
+/-! ### histories -/
 
 /-- everything that can happen to the oracle of one chain -/
 inductive Op where
   | vote (v n h eth : Nat) (applicable : Bool) (amount : Nat)
-  | tally (power : List (Nat × Nat)) (total : Nat)
-  /-- a tally during which the observation event of the listed attestations (nonce, hash) cannot be emitted -/
-  | tallyFault (power : List (Nat × Nat)) (total : Nat) (failing : List (Nat × Nat))
+  /-- end of block: `power` is the whole `LastValidatorPower` table at that moment (the total is its sum);
+  `failing` lists the attestations (nonce, hash) whose observation event cannot be emitted in this block -/
+  | tally (power : List (Nat × Nat)) (failing : List (Nat × Nat))
   | catchUp
   | override (n : Nat)
 
 def apply (s : St) : Op → St
   | .vote v n h eth ap amt => (vote s v n h eth ap amt).1
-  | .tally p t => tally s (powerOf p) t
-  | .tallyFault p t f => tally s (powerOf p) t (faultOf f)
+  | .tally p f => tally s (powerOf p) (totalOf p) (faultOf f)
   | .catchUp => catchUp s
   | .override n => override s n
 
 def run (ops : List Op) : St := ops.foldl apply St.init
 
+theorem run_snoc (l : List Op) (op : Op) : run (l ++ [op]) = apply (run l) op := by
+  simp [run, List.foldl_append]
+
+theorem apply_inv (s : St) (op : Op) (hi : Inv s) : Inv (apply s op) := by
+  cases op with
+  | vote v n h eth ap amt => exact vote_inv s v n h eth ap amt hi
+  | tally p f => exact tally_inv s _ _ _ hi
+  | catchUp => exact catchUp_inv s hi
+  | override n => exact override_inv s n hi
+
+theorem run_inv (ops : List Op) : Inv (run ops) := by
+  induction ops using rev_induction with
+  | hnil => exact inv_init
+  | hsnoc l op ih => rw [run_snoc]; exact apply_inv _ op ih
+
+/-- `o` records the observation of an attestation stored in `s` whose (distinct) voters hold more than 66 %
+of `total` under `power` -/
+def QuorumObs (s : St) (power : Nat → Nat) (total : Nat) (o : Obs) : Prop :=
+  ∃ a ∈ s.atts, a.observed = false ∧ a.nonce = o.nonce ∧ a.hash = o.hash ∧ a.eth = o.eth ∧
+    a.applicable = o.applicable ∧ a.amount = o.amount ∧ a.votes = o.voters ∧ a.votes.Nodup ∧
+    100 * (a.votes.map power).sum > 66 * total
+
+/-- what a whole tally does to the ghost log and to the cursor -/
+theorem tally_log (s0 : St) (power : Nat → Nat) (total : Nat) (ef : EventFault) (hi : Inv s0) :
+    ∃ new, (tally s0 power total ef).log = s0.log ++ new ∧
+      (tally s0 power total ef).epoch = s0.epoch ∧ (tally s0 power total ef).epochStart = s0.epochStart ∧
+      (tally s0 power total ef).valNonce = s0.valNonce ∧
+      (∀ o ∈ new, o.epoch = s0.epoch ∧ QuorumObs s0 power total o) := by
+  refine (tally_induct_inv (fun s => ∃ new, s.log = s0.log ++ new ∧ s.epoch = s0.epoch ∧
+      s.epochStart = s0.epochStart ∧ s.valNonce = s0.valNonce ∧
+      (∀ o ∈ new, o.epoch = s0.epoch ∧ QuorumObs s0 power total o)) s0 power total ef hi ?_
+      ⟨[], by simp, rfl, rfl, rfl, by simp⟩).2
+  intro s a _ ⟨new, hl, he, hes, hv, hq⟩ _ ha0 hobs hr _ _
+  refine ⟨new ++ [mkObs s a], by simp [observe, hl], by simp [observe, he], by simp [observe, hes],
+    by simp [observe, hv], ?_⟩
+  intro o ho
+  rcases List.mem_append.mp ho with ho | ho
+  · exact hq o ho
+  · simp only [List.mem_singleton] at ho
+    subst ho
+    exact ⟨by simp [mkObs, he], a, ha0, hobs, rfl, rfl, rfl, rfl, rfl, rfl, hi.nodup a ha0,
+      reaches_quorum power total a.votes hr⟩
+
+/-- everything but the observed flag -/
+def AttSame (a a' : Att) : Prop :=
+  a'.nonce = a.nonce ∧ a'.hash = a.hash ∧ a'.eth = a.eth ∧ a'.applicable = a.applicable ∧
+    a'.amount = a.amount ∧ a'.votes = a.votes
+
+/-- a tally changes stored attestations in their observed flag only -/
+theorem tally_atts (s0 : St) (power : Nat → Nat) (total : Nat) (ef : EventFault) (hi : Inv s0) :
+    ∀ a' ∈ (tally s0 power total ef).atts, ∃ a ∈ s0.atts, AttSame a a' := by
+  refine (tally_induct_inv (fun s => ∀ a' ∈ s.atts, ∃ a ∈ s0.atts, AttSame a a') s0 power total ef hi ?_
+      (fun a ha => ⟨a, ha, rfl, rfl, rfl, rfl, rfl, rfl⟩)).2
+  intro s a _ hp _ ha0 _ _ _ _ a' ha'
+  simp only [observe] at ha'
+  rcases mem_putAtt ha' with rfl | ⟨ha', _⟩
+  · exact ⟨a, ha0, rfl, rfl, rfl, rfl, rfl, rfl⟩
+  · exact hp a' ha'
+
+/-- where the entries of the ghost log come from -/
+theorem apply_log (s : St) (op : Op) (hi : Inv s) :
+    ∃ new, (apply s op).log = s.log ++ new ∧
+      ∀ o ∈ new, ∃ p f, op = .tally p f ∧ QuorumObs s (powerOf p) (totalOf p) o := by
+  cases op with
+  | vote v n h eth ap amt =>
+    refine ⟨[], ?_, by simp⟩
+    rcases vote_cases s v n h eth ap amt with ⟨_, he⟩ | ⟨_, _, _, he⟩ <;> simp [apply, he]
+  | tally p f =>
+    obtain ⟨new, hl, _, _, _, hq⟩ := tally_log s (powerOf p) (totalOf p) (faultOf f) hi
+    exact ⟨new, hl, fun o ho => ⟨p, f, rfl, (hq o ho).2⟩⟩
+  | catchUp => exact ⟨[], by simp [apply, catchUp], by simp⟩
+  | override n => exact ⟨[], by simp [apply, override], by simp⟩
+
+/-- where the votes of a stored attestation come from -/
+theorem apply_votes (s : St) (op : Op) (hi : Inv s) :
+    ∀ a' ∈ (apply s op).atts, ∀ w ∈ a'.votes,
+      (∃ a ∈ s.atts, a.nonce = a'.nonce ∧ a.hash = a'.hash ∧ a.eth = a'.eth ∧ w ∈ a.votes) ∨
+      (∃ ap amt, op = .vote w a'.nonce a'.hash a'.eth ap amt ∧ (vote s w a'.nonce a'.hash a'.eth ap amt).2 = .ok) := by
+  intro a' ha' w hw
+  cases op with
+  | vote v n h eth ap amt =>
+    simp only [apply] at ha'
+    rcases vote_cases s v n h eth ap amt with ⟨_, he⟩ | ⟨hok, _, heth, he⟩
+    · rw [he] at ha'; exact Or.inl ⟨a', ha', rfl, rfl, rfl, hw⟩
+    · rw [he] at ha'
+      simp only at ha'
+      rcases mem_putAtt ha' with rfl | ⟨ha', _⟩
+      · rcases attFor_cases s n h eth ap amt with ⟨hm, hn, hh⟩ | ⟨_, hq⟩
+        · rcases mem_addVote (show w ∈ addVote (attFor s n h eth ap amt).votes v from hw) with hw | rfl
+          · exact Or.inl ⟨attFor s n h eth ap amt, hm, rfl, rfl, rfl, hw⟩
+          · right
+            refine ⟨ap, amt, ?_, ?_⟩
+            · show Op.vote w n h eth ap amt = Op.vote w (attFor s n h eth ap amt).nonce (attFor s n h eth ap amt).hash
+                (attFor s n h eth ap amt).eth ap amt
+              rw [hn, hh, heth]
+            · show (vote s w (attFor s n h eth ap amt).nonce (attFor s n h eth ap amt).hash
+                (attFor s n h eth ap amt).eth ap amt).2 = .ok
+              rw [hn, hh, heth]; exact hok
+        · have hw' : w ∈ addVote (attFor s n h eth ap amt).votes v := hw
+          rw [hq] at hw'
+          rcases mem_addVote hw' with hw' | rfl
+          · simp at hw'
+          · right
+            refine ⟨ap, amt, ?_, ?_⟩
+            · show Op.vote w n h eth ap amt = Op.vote w (attFor s n h eth ap amt).nonce (attFor s n h eth ap amt).hash
+                (attFor s n h eth ap amt).eth ap amt
+              rw [hq]
+            · show (vote s w (attFor s n h eth ap amt).nonce (attFor s n h eth ap amt).hash
+                (attFor s n h eth ap amt).eth ap amt).2 = .ok
+              rw [hq]; exact hok
+      · exact Or.inl ⟨a', ha', rfl, rfl, rfl, hw⟩
+  | tally p f =>
+    obtain ⟨a, ha, h1, h2, h3, _, _, h6⟩ := tally_atts s (powerOf p) (totalOf p) (faultOf f) hi a' ha'
+    exact Or.inl ⟨a, ha, h1.symm, h2.symm, h3.symm, h6 ▸ hw⟩
+  | catchUp => exact Or.inl ⟨a', ha', rfl, rfl, rfl, hw⟩
+  | override n => exact Or.inl ⟨a', ha', rfl, rfl, rfl, hw⟩
+
+/-- where the claim content of a stored attestation comes from: the vote that created it -/
+theorem apply_origin (s : St) (op : Op) (hi : Inv s) :
+    ∀ a' ∈ (apply s op).atts,
+      (∃ a ∈ s.atts, a.nonce = a'.nonce ∧ a.hash = a'.hash ∧ a.eth = a'.eth ∧ a.applicable = a'.applicable ∧
+        a.amount = a'.amount) ∨
+      (∃ v, op = .vote v a'.nonce a'.hash a'.eth a'.applicable a'.amount ∧
+        (vote s v a'.nonce a'.hash a'.eth a'.applicable a'.amount).2 = .ok) := by
+  intro a' ha'
+  cases op with
+  | vote v n h eth ap amt =>
+    simp only [apply] at ha'
+    rcases vote_cases s v n h eth ap amt with ⟨_, he⟩ | ⟨hok, _, heth, he⟩
+    · rw [he] at ha'; exact Or.inl ⟨a', ha', rfl, rfl, rfl, rfl, rfl⟩
+    · rw [he] at ha'
+      simp only at ha'
+      rcases mem_putAtt ha' with rfl | ⟨ha', _⟩
+      · rcases attFor_cases s n h eth ap amt with ⟨hm, _, _⟩ | ⟨_, hq⟩
+        · exact Or.inl ⟨attFor s n h eth ap amt, hm, rfl, rfl, rfl, rfl, rfl⟩
+        · right
+          refine ⟨v, ?_, ?_⟩
+          · show Op.vote v n h eth ap amt = Op.vote v (attFor s n h eth ap amt).nonce (attFor s n h eth ap amt).hash
+              (attFor s n h eth ap amt).eth (attFor s n h eth ap amt).applicable (attFor s n h eth ap amt).amount
+            rw [hq]
+          · show (vote s v (attFor s n h eth ap amt).nonce (attFor s n h eth ap amt).hash
+              (attFor s n h eth ap amt).eth (attFor s n h eth ap amt).applicable (attFor s n h eth ap amt).amount).2 = .ok
+            rw [hq]; exact hok
+      · exact Or.inl ⟨a', ha', rfl, rfl, rfl, rfl, rfl⟩
+  | tally p f =>
+    obtain ⟨a, ha, h1, h2, h3, h4, h5, _⟩ := tally_atts s (powerOf p) (totalOf p) (faultOf f) hi a' ha'
+    exact Or.inl ⟨a, ha, h1.symm, h2.symm, h3.symm, h4.symm, h5.symm⟩
+  | catchUp => exact Or.inl ⟨a', ha', rfl, rfl, rfl, rfl, rfl⟩
+  | override n => exact Or.inl ⟨a', ha', rfl, rfl, rfl, rfl, rfl⟩
+
+theorem filter_length_le_one {α : Type} (p : α → Bool) (l : List α)
+    (h : l.Pairwise (fun x y => ¬ (p x = true ∧ p y = true))) : (l.filter p).length ≤ 1 := by
+  induction l with
+  | nil => simp
+  | cons x xs ih =>
+    rw [List.pairwise_cons] at h
+    by_cases hx : p x = true
+    · have : xs.filter p = [] := List.filter_eq_nil_iff.mpr (fun y hy hpy => h.1 y hy ⟨hx, hpy⟩)
+      simp [hx, this]
+    · simp only [List.filter_cons, hx]; exact ih h.2
+
+/-- the history contains an accepted vote of `v` for claim `(n, h)` reported at remote height `eth` -/
+def VotedIn (ops : List Op) (v n h eth : Nat) : Prop :=
+  ∃ pre ap amt post, ops = pre ++ Op.vote v n h eth ap amt :: post ∧ (vote (run pre) v n h eth ap amt).2 = .ok
+
+theorem VotedIn.snoc {l : List Op} {v n h eth : Nat} (hv : VotedIn l v n h eth) (op : Op) :
+    VotedIn (l ++ [op]) v n h eth := by
+  obtain ⟨pre, ap, amt, post, he, hok⟩ := hv
+  exact ⟨pre, ap, amt, post ++ [op], by simp [he], hok⟩
+
+theorem VotedIn.append {l : List Op} {v n h eth : Nat} (hv : VotedIn l v n h eth) (more : List Op) :
+    VotedIn (l ++ more) v n h eth := by
+  obtain ⟨pre, ap, amt, post, he, hok⟩ := hv
+  exact ⟨pre, ap, amt, post ++ more, by simp [he], hok⟩
+
+/-- the history contains an accepted vote that submitted exactly this claim content -/
+def SubmittedIn (ops : List Op) (n h eth : Nat) (ap : Bool) (amt : Nat) : Prop :=
+  ∃ pre v post, ops = pre ++ Op.vote v n h eth ap amt :: post ∧ (vote (run pre) v n h eth ap amt).2 = .ok
+
+theorem SubmittedIn.snoc {l : List Op} {n h eth : Nat} {ap : Bool} {amt : Nat} (hv : SubmittedIn l n h eth ap amt)
+    (op : Op) : SubmittedIn (l ++ [op]) n h eth ap amt := by
+  obtain ⟨pre, v, post, he, hok⟩ := hv
+  exact ⟨pre, v, post ++ [op], by simp [he], hok⟩
+
+/-- ASSUMPTION (tmhash collision freeness; the pre-image is C11's subject): within a history a claim hash
+determines the claim content the model carries next to it (`applicable`, `amount`). The remote height is
+NOT covered by the hash; `Attest` compares it explicitly. -/
+def HashIdentifiesClaim (ops : List Op) : Prop :=
+  ∀ v n h e ap am v' e' ap' am', Op.vote v n h e ap am ∈ ops → Op.vote v' n h e' ap' am' ∈ ops → ap = ap' ∧ am = am'
+
+end Lemmas
+
 /-! ## Property theorems (C02) -/
 
-theorem reachable_inv (ops : List Op) : Inv (run ops) := by
-  unfold run
-  suffices h : ∀ s, Inv s → Inv (ops.foldl apply s) from h _ inv_init
-  induction ops with
-  | nil => intro s hi; exact hi
-  | cons op rest ih =>
-    intro s hi
-    apply ih
-    cases op with
-    | vote v n h eth ap amt => exact vote_inv s v n h eth ap amt hi
-    | tally p t => exact tally_inv s _ t _ hi
-    | tallyFault p t f => exact tally_inv s _ t _ hi
-    | catchUp => exact catchUp_inv s hi
-    | override n => exact override_inv s n hi
+/-- the invariant holds after every history -/
+theorem reachable_inv (ops : List Op) : Inv (run ops) := run_inv ops
 
 /-- **votes_nodup.** In every reachable state no validator appears twice in any attestation's
 vote list — whatever the order of votes, tallies, catch-ups and nonce overrides. -/
 theorem votes_nodup (ops : List Op) : ∀ a ∈ (run ops).atts, a.votes.Nodup :=
   (reachable_inv ops).nodup
 
+/-- **log_provenance.** Every entry of the ghost log was appended by a tally op of the history (it is in the
+log right after that op), for an attestation stored (unobserved) at that point whose distinct voters held
+more than 66 % of that tally's total. -/
+theorem log_provenance (ops : List Op) :
+    ∀ o ∈ (run ops).log, ∃ pre p f post, ops = pre ++ Op.tally p f :: post ∧
+      o ∈ (run (pre ++ [Op.tally p f])).log ∧
+      QuorumObs (run pre) (powerOf p) (totalOf p) o := by
+  induction ops using rev_induction with
+  | hnil => intro o ho; simp [run, St.init] at ho
+  | hsnoc l op ih =>
+    intro o ho
+    rw [run_snoc] at ho
+    obtain ⟨new, hl, hq⟩ := apply_log (run l) op (run_inv l)
+    rw [hl] at ho
+    rcases List.mem_append.mp ho with ho | ho
+    · obtain ⟨pre, p, f, post, he, hin, hQ⟩ := ih o ho
+      exact ⟨pre, p, f, post ++ [op], by simp [he], hin, hQ⟩
+    · obtain ⟨p, f, rfl, hQ⟩ := hq o ho
+      exact ⟨l, p, f, [], rfl, by rw [run_snoc, hl]; exact List.mem_append.mpr (Or.inr ho), hQ⟩
+
+/-- **votes_were_cast** ("have each voted for that identical claim"). Every validator in the vote list of a
+stored attestation has an accepted vote op in the history for exactly that claim `(nonce, hash)` and with
+exactly the stored remote height. -/
+theorem votes_were_cast (ops : List Op) :
+    ∀ a ∈ (run ops).atts, ∀ v ∈ a.votes, VotedIn ops v a.nonce a.hash a.eth := by
+  induction ops using rev_induction with
+  | hnil => intro a ha; simp [run, St.init] at ha
+  | hsnoc l op ih =>
+    intro a' ha' w hw
+    rw [run_snoc] at ha'
+    rcases apply_votes (run l) op (run_inv l) a' ha' w hw with ⟨a, ha, h1, h2, h3, hwa⟩ | ⟨ap, amt, rfl, hok⟩
+    · have := ih a ha w hwa
+      rw [h1, h2, h3] at this
+      exact this.snoc op
+    · exact ⟨l, ap, amt, [], rfl, hok⟩
+
+/-- **claim_content_was_submitted.** The claim content stored with an attestation (remote height, whether
+the handler can apply it, amount) is the content of an accepted vote op of the history for that `(nonce, hash)`. -/
+theorem claim_content_was_submitted (ops : List Op) :
+    ∀ a ∈ (run ops).atts, SubmittedIn ops a.nonce a.hash a.eth a.applicable a.amount := by
+  induction ops using rev_induction with
+  | hnil => intro a ha; simp [run, St.init] at ha
+  | hsnoc l op ih =>
+    intro a' ha'
+    rw [run_snoc] at ha'
+    rcases apply_origin (run l) op (run_inv l) a' ha' with ⟨a, ha, h1, h2, h3, h4, h5⟩ | ⟨v, rfl, hok⟩
+    · have := ih a ha
+      rw [h1, h2, h3, h4, h5] at this
+      exact this.snoc op
+    · exact ⟨l, v, [], rfl, hok⟩
+
+/-- **effect_requires_quorum** ("takes effect only after validators that together hold more than 66 % of the
+current bonded voting power have each voted for that identical claim, with every validator's power counted
+at most once"), over whole histories. Every claim that ever took effect — every entry `o` of the log, which
+by `log_matches_state` / `minted_eq_sum_log` are exactly the observed flags and the minted total — was
+appended by a tally op of the history. At that point of the history (`pre`) the claim's stored voters were
+pairwise distinct, their summed power under THAT tally's table exceeded 66 % of THAT table's total (and is at
+most the total: a genuine fraction), and every one of them has an accepted vote op for the very same claim
+`(nonce, hash)` at the same remote height earlier in the history (before the tally); the claim content was
+submitted by an accepted vote; the entry is not in the log before that tally and is in it right after. -/
+theorem effect_requires_quorum (ops : List Op) :
+    ∀ o ∈ (run ops).log, ∃ pre p f post, ops = pre ++ Op.tally p f :: post ∧
+      o.voters.Nodup ∧
+      100 * (o.voters.map (powerOf p)).sum > 66 * totalOf p ∧
+      (o.voters.map (powerOf p)).sum ≤ totalOf p ∧
+      (∀ v ∈ o.voters, VotedIn pre v o.nonce o.hash o.eth) ∧
+      SubmittedIn pre o.nonce o.hash o.eth o.applicable o.amount ∧
+      o ∉ (run pre).log ∧ o ∈ (run (pre ++ [Op.tally p f])).log := by
+  intro o ho
+  obtain ⟨pre, p, f, post, he, hin, a, ha, h0, h1, h2, h3, h4, h5, h6, h7, h8⟩ := log_provenance ops o ho
+  refine ⟨pre, p, f, post, he, h6 ▸ h7, h6 ▸ h8, voters_power_le_total _ (h6 ▸ h7) p, ?_, ?_, ?_, hin⟩
+  · intro v hv
+    have := votes_were_cast pre a ha v (h6 ▸ hv)
+    rw [h1, h2, h3] at this
+    exact this
+  · have := claim_content_was_submitted pre a ha
+    rw [h1, h2, h3, h4, h5] at this
+    exact this
+  · intro hmem
+    obtain ⟨a', ha', k1, k2, k3, _⟩ := (reachable_inv pre).obsAtt o hmem
+    have : a' = a := keys_unique (reachable_inv pre).keys ha' ha ⟨by omega, by omega⟩
+    subst this
+    rw [h0] at k3; cases k3
+
+/-- **voters_voted_identical_claim.** Under the hash assumption the votes behind an effect are votes for the
+identical claim in every modelled component: each voter's accepted vote op carries the nonce, hash, remote
+height, applicability and amount of the claim that took effect. -/
+theorem voters_voted_identical_claim (ops : List Op) (hc : HashIdentifiesClaim ops) :
+    ∀ o ∈ (run ops).log, ∀ v ∈ o.voters, ∃ pre post,
+      ops = pre ++ Op.vote v o.nonce o.hash o.eth o.applicable o.amount :: post ∧
+      (vote (run pre) v o.nonce o.hash o.eth o.applicable o.amount).2 = .ok := by
+  intro o ho v hv
+  obtain ⟨pre, p, f, post, he, _, _, _, hvoted, hsub, _⟩ := effect_requires_quorum ops o ho
+  obtain ⟨pre1, ap, amt, post1, he1, hok⟩ := hvoted v hv
+  obtain ⟨pre2, v2, post2, he2, _⟩ := hsub
+  have hm1 : Op.vote v o.nonce o.hash o.eth ap amt ∈ ops := by rw [he, he1]; simp
+  have hm2 : Op.vote v2 o.nonce o.hash o.eth o.applicable o.amount ∈ ops := by rw [he, he2]; simp
+  obtain ⟨rfl, rfl⟩ := hc _ _ _ _ _ _ _ _ _ _ hm1 hm2
+  exact ⟨pre1, post1 ++ Op.tally p f :: post, by rw [he, he1]; simp, hok⟩
+
+/-- **tally_without_quorum_is_noop** (the negative side of the quorum clause, for ANY state and ANY power
+table). A whole end-of-block tally leaves the state untouched — cursor, heights, observed flags, minted
+total, log — unless some stored, not yet observed attestation at exactly cursor + 1 has voters with more
+than 66 % of the total AND a remote height not below the last observed one. Competing claims, claims at
+other nonces, minorities, already observed claims and refused heights change nothing. -/
+theorem tally_without_quorum_is_noop (s : St) (power : Nat → Nat) (total : Nat) (ef : EventFault)
+    (h : ∀ a ∈ s.atts, a.nonce = s.lastObserved + 1 → a.observed = false →
+      100 * (a.votes.map power).sum ≤ 66 * total ∨ a.eth < s.lastEth) :
+    tally s power total ef = s := by
+  refine tally_induct (fun s' => s' = s) s power total ef ?_ rfl
+  intro s' a hs ha hn
+  subst hs
+  rcases tryAtt_cases s' a power total ef with he | ⟨h1, h2, _, h4, _⟩
+  · exact he
+  · exfalso
+    rcases h a ha hn h1 with hq | hq
+    · have := not_reaches_of_le power total a.votes hq
+      rw [h2] at this; cases this
+    · omega
+
+/-- **state_change_requires_quorum** (step form of the quorum clause, any state). If an op changes the minted
+total, the log, the last observed remote height or the cursor, it is either a governance override (which
+changes the cursor only) or a tally whose table gives some stored unobserved attestation at cursor + 1 more
+than 66 % of the table's total. Votes and catch-ups never do. -/
+theorem state_change_requires_quorum (s : St) (op : Op)
+    (h : (apply s op).minted ≠ s.minted ∨ (apply s op).log ≠ s.log ∨ (apply s op).lastEth ≠ s.lastEth ∨
+      (apply s op).lastObserved ≠ s.lastObserved) :
+    (∃ n, op = .override n ∧ (apply s op).minted = s.minted ∧ (apply s op).log = s.log ∧
+      (apply s op).lastEth = s.lastEth ∧ (apply s op).atts = s.atts) ∨
+    (∃ p f, op = .tally p f ∧ ∃ a ∈ s.atts, a.nonce = s.lastObserved + 1 ∧ a.observed = false ∧
+      s.lastEth ≤ a.eth ∧ 100 * (a.votes.map (powerOf p)).sum > 66 * totalOf p) := by
+  cases op with
+  | vote v n hh eth ap amt =>
+    exfalso
+    rcases vote_cases s v n hh eth ap amt with ⟨_, he⟩ | ⟨_, _, _, he⟩ <;>
+      simp only [apply, he] at h <;> simp at h
+  | tally p f =>
+    right
+    refine ⟨p, f, rfl, ?_⟩
+    apply Classical.byContradiction
+    intro hno
+    have hnoop := tally_without_quorum_is_noop s (powerOf p) (totalOf p) (faultOf f) (by
+      intro a ha hn hobs
+      by_cases hq : 100 * (a.votes.map (powerOf p)).sum ≤ 66 * totalOf p
+      · exact Or.inl hq
+      · by_cases he : a.eth < s.lastEth
+        · exact Or.inr he
+        · exact absurd ⟨a, ha, hn, hobs, by omega, by omega⟩ hno)
+    simp only [apply, hnoop] at h
+    simp at h
+  | catchUp => exfalso; simp [apply, catchUp] at h
+  | override n => left; exact ⟨n, rfl, rfl, rfl, rfl, rfl⟩
+
+/-- **cursor_consecutive** ("claims take effect in strictly consecutive nonce order", "at most one claim per
+event nonce"), over whole histories. Since the last governance reset (which installed `epochStart`) the
+cursor has moved only together with an observation and only by one: it stands at `epochStart` + the number
+of observations, and the observed nonces are exactly `epochStart+1, epochStart+2, …` in this order — no
+gap, no repetition. Each observation was made when the cursor stood at its nonce − 1. The applied effects
+are a sub-sequence of the observations (each applied at most once, in nonce order). -/
+theorem cursor_consecutive (ops : List Op) :
+    (run ops).lastObserved = (run ops).epochStart + (run ops).observations.length ∧
+    (run ops).observations.map (·.nonce) =
+      List.range' ((run ops).epochStart + 1) (run ops).observations.length ∧
+    (∀ o ∈ (run ops).observations, o.nonce = o.cursorBefore + 1) ∧
+    (run ops).effects.Sublist (run ops).observations := by
+  have hi := reachable_inv ops
+  refine ⟨hi.cursor, hi.consec, ?_, List.filter_sublist⟩
+  intro o ho
+  exact hi.before o (List.mem_filter.mp ho).1
+
+/-- observed nonces of one epoch strictly increase -/
+theorem observations_increasing (ops : List Op) :
+    (run ops).observations.Pairwise (fun a b => a.nonce < b.nonce) := by
+  have h := (reachable_inv ops).consec
+  have hp : ((run ops).observations.map (·.nonce)).Pairwise (· < ·) := by
+    rw [h]; exact List.pairwise_lt_range' 1
+  exact List.pairwise_map.mp hp
+
+/-- **no_nonce_gap.** The same clause in the form the harness monitors: every observation of the current
+epoch lies in `(epochStart, cursor]`, and for every nonce in that range exactly one claim was observed. -/
+theorem no_nonce_gap (ops : List Op) :
+    (∀ o ∈ (run ops).observations, (run ops).epochStart < o.nonce ∧ o.nonce ≤ (run ops).lastObserved) ∧
+    (∀ n, (run ops).epochStart < n → n ≤ (run ops).lastObserved →
+      ((run ops).observations.filter (fun o => o.nonce == n)).length = 1) := by
+  have hi := reachable_inv ops
+  have hc := hi.cursor
+  have hm := hi.consec
+  constructor
+  · intro o ho
+    have : o.nonce ∈ (run ops).observations.map (·.nonce) := List.mem_map.mpr ⟨o, ho, rfl⟩
+    rw [hm, List.mem_range'_1] at this
+    omega
+  · intro n h1 h2
+    have hmem : n ∈ (run ops).observations.map (·.nonce) := by
+      rw [hm, List.mem_range'_1]; omega
+    obtain ⟨o, ho, hn⟩ := List.mem_map.mp hmem
+    have hge : 0 < ((run ops).observations.filter (fun o => o.nonce == n)).length :=
+      List.length_pos_of_mem (List.mem_filter.mpr ⟨ho, by simp [hn]⟩)
+    have hle := filter_length_le_one (fun o : Obs => o.nonce == n) (run ops).observations
+      ((observations_increasing ops).imp (by
+        intro x y hxy hp
+        simp only [beq_iff_eq] at hp
+        omega))
+    omega
+
+/-- **effects_in_order** (the former statement, kept): every observation happened at cursor + 1, observed
+nonces strictly increase, the applied effects are a sub-sequence of the observations, in nonce order. -/
+theorem effects_in_order (ops : List Op) :
+    (∀ e ∈ (run ops).observations, e.nonce = e.cursorBefore + 1) ∧
+    (run ops).observations.Pairwise (fun a b => a.nonce < b.nonce) ∧
+    (run ops).effects.Sublist (run ops).observations ∧
+    (run ops).effects.Pairwise (fun a b => a.nonce < b.nonce) :=
+  ⟨(cursor_consecutive ops).2.2.1, observations_increasing ops, (cursor_consecutive ops).2.2.2,
+    (observations_increasing ops).sublist (cursor_consecutive ops).2.2.2⟩
+
+/-- **competing_claims_exclusive.** Two observations of one epoch with the same nonce are the
+same observation: competing claims at one nonce can never both take effect. -/
+theorem competing_claims_exclusive (ops : List Op) (e₁ e₂ : Obs)
+    (h₁ : e₁ ∈ (run ops).observations) (h₂ : e₂ ∈ (run ops).observations) (hn : e₁.nonce = e₂.nonce) :
+    e₁ = e₂ := by
+  have hp := observations_increasing ops
+  rcases List.mem_iff_getElem.mp h₁ with ⟨i, hi, rfl⟩
+  rcases List.mem_iff_getElem.mp h₂ with ⟨j, hj, rfl⟩
+  have hlt := List.pairwise_iff_getElem.mp hp
+  rcases Nat.lt_trichotomy i j with h | h | h
+  · have := hlt i j hi hj h; omega
+  · subst h; rfl
+  · have := hlt j i hj hi h; omega
+
+/-- **cursor_step.** How a single op of a history moves the cursor: votes and catch-ups not at all, an
+override to its argument (starting a new epoch with no observations), a tally by exactly the number of
+observations it appends to the current epoch, each of them with quorum under that tally's table. -/
+theorem cursor_step (ops : List Op) (op : Op) :
+    match op with
+    | .vote .. => (apply (run ops) op).lastObserved = (run ops).lastObserved
+    | .catchUp => (apply (run ops) op).lastObserved = (run ops).lastObserved
+    | .override n => (apply (run ops) op).lastObserved = n ∧ (apply (run ops) op).epochStart = n ∧
+        (apply (run ops) op).observations = []
+    | .tally p _ => ∃ new, (apply (run ops) op).observations = (run ops).observations ++ new ∧
+        (apply (run ops) op).log = (run ops).log ++ new ∧
+        (apply (run ops) op).lastObserved = (run ops).lastObserved + new.length ∧
+        ∀ o ∈ new, QuorumObs (run ops) (powerOf p) (totalOf p) o := by
+  have hi := reachable_inv ops
+  cases op with
+  | vote v n h eth ap amt =>
+    rcases vote_cases (run ops) v n h eth ap amt with ⟨_, he⟩ | ⟨_, _, _, he⟩ <;> simp [apply, he]
+  | catchUp => simp [apply, catchUp]
+  | override n => exact ⟨rfl, rfl, observations_override _ n hi⟩
+  | tally p f =>
+    obtain ⟨new, hl, hep, hes, _, hq⟩ := tally_log (run ops) (powerOf p) (totalOf p) (faultOf f) hi
+    have hi' := tally_inv (run ops) (powerOf p) (totalOf p) (faultOf f) hi
+    have hobs : (tally (run ops) (powerOf p) (totalOf p) (faultOf f)).observations =
+        (run ops).observations ++ new := by
+      simp only [St.observations, hl, hep, List.filter_append]
+      congr 1
+      exact List.filter_eq_self.mpr (fun o ho => by simp [(hq o ho).1])
+    refine ⟨new, hobs, hl, ?_, fun o ho => (hq o ho).2⟩
+    have h1 := hi'.cursor
+    have h2 := hi.cursor
+    rw [hobs, hes] at h1
+    simp only [apply, List.length_append] at h1 ⊢
+    omega
+
+/-- **minted_eq_sum_log.** The observable effect is tied to the ghost log: the minted total is the sum of
+the amounts of the logged observations whose claim the handler could apply. -/
+theorem minted_eq_sum_log (ops : List Op) : (run ops).minted = ((run ops).log.map Obs.mint).sum :=
+  (reachable_inv ops).minted
+
+/-- **log_matches_state** ("its effect is applied at most once — exactly once whenever it can be applied at
+all"), over whole histories and ACROSS governance resets. For every stored attestation the log has exactly
+one entry with its `(nonce, hash)` if its observed flag is set and none otherwise, and that entry minted the
+attestation's amount if the handler can apply the claim and nothing otherwise. With `minted_eq_sum_log`:
+an observed applicable claim is counted in the minted total exactly once, a claim that is not observed or
+not applicable never. -/
+theorem log_matches_state (ops : List Op) :
+    ∀ a ∈ (run ops).atts,
+      (((run ops).log.filter (fun o => o.nonce == a.nonce && o.hash == a.hash)).map Obs.mint =
+        if a.observed then [if a.applicable then a.amount else 0] else []) ∧
+      (∀ o ∈ (run ops).log, o.nonce = a.nonce → o.hash = a.hash →
+        a.observed = true ∧ o.applicable = a.applicable ∧ o.amount = a.amount ∧ o.eth = a.eth) := by
+  intro a ha
+  have hi := reachable_inv ops
+  have hsame : ∀ o ∈ (run ops).log, o.nonce = a.nonce → o.hash = a.hash →
+      a.observed = true ∧ o.applicable = a.applicable ∧ o.amount = a.amount ∧ o.eth = a.eth := by
+    intro o ho h1 h2
+    obtain ⟨a', ha', k1, k2, k3, k4, k5, k6⟩ := hi.obsAtt o ho
+    have : a' = a := keys_unique hi.keys ha' ha ⟨by omega, by omega⟩
+    subst this
+    exact ⟨k3, k4.symm, k5.symm, k6.symm⟩
+  refine ⟨?_, hsame⟩
+  have hle := filter_length_le_one (fun o : Obs => o.nonce == a.nonce && o.hash == a.hash) (run ops).log
+    (hi.uniq.imp (by
+      intro x y hxy hp
+      simp only [Bool.and_eq_true, beq_iff_eq] at hp
+      exact hxy ⟨by omega, by omega⟩))
+  cases hobs : a.observed
+  · simp only [Bool.false_eq_true, if_false, List.map_eq_nil_iff, List.filter_eq_nil_iff]
+    intro o ho hk
+    simp only [Bool.and_eq_true, beq_iff_eq] at hk
+    have := (hsame o ho hk.1 hk.2).1
+    rw [hobs] at this; cases this
+  · obtain ⟨o, ho, h1, h2⟩ := hi.attObs a ha hobs
+    have hmem : o ∈ (run ops).log.filter (fun o => o.nonce == a.nonce && o.hash == a.hash) :=
+      List.mem_filter.mpr ⟨ho, by simp [h1, h2]⟩
+    have hlen := List.length_pos_of_mem hmem
+    match hL : (run ops).log.filter (fun o => o.nonce == a.nonce && o.hash == a.hash) with
+    | [] => rw [hL] at hlen; simp at hlen
+    | [x] =>
+      have hx : x ∈ (run ops).log.filter (fun o => o.nonce == a.nonce && o.hash == a.hash) := by simp [hL]
+      have hx' := List.mem_filter.mp hx
+      have hk := hx'.2
+      simp only [Bool.and_eq_true, beq_iff_eq] at hk
+      obtain ⟨_, k1, k2, _⟩ := hsame x hx'.1 hk.1 hk.2
+      rw [hL]
+      simp [Obs.mint, k1, k2]
+    | x :: y :: rest => rw [hL] at hle; simp at hle
+
+/-- **log_entries_are_observed_attestations.** Conversely every entry of the log is the record of a stored
+attestation whose observed flag is set and carries that attestation's claim. (The model never deletes
+attestations; pruning 1000 nonces behind the cursor is outside the modelled histories.) -/
+theorem log_entries_are_observed_attestations (ops : List Op) :
+    ∀ o ∈ (run ops).log, ∃ a ∈ (run ops).atts, a.nonce = o.nonce ∧ a.hash = o.hash ∧ a.observed = true ∧
+      a.applicable = o.applicable ∧ a.amount = o.amount ∧ a.eth = o.eth :=
+  (reachable_inv ops).obsAtt
+
+/-- **observed_requires_quorum.** The quorum clause stated on the executable state alone (no ghost): if after
+a history an attestation is flagged observed, then the history contains a tally op before which that
+attestation was stored unobserved with pairwise distinct voters whose power under that tally's table
+exceeded 66 % of the table's total, each of whom had cast an accepted vote for exactly this claim (nonce,
+hash, remote height) earlier in the history. -/
+theorem observed_requires_quorum (ops : List Op) :
+    ∀ a ∈ (run ops).atts, a.observed = true →
+      ∃ pre p f post, ops = pre ++ Op.tally p f :: post ∧
+        ∃ a0 ∈ (run pre).atts, a0.nonce = a.nonce ∧ a0.hash = a.hash ∧ a0.eth = a.eth ∧ a0.observed = false ∧
+          a0.votes.Nodup ∧
+          100 * (a0.votes.map (powerOf p)).sum > 66 * totalOf p ∧
+          (a0.votes.map (powerOf p)).sum ≤ totalOf p ∧
+          ∀ v ∈ a0.votes, VotedIn pre v a.nonce a.hash a.eth := by
+  intro a ha hobs
+  have hi := reachable_inv ops
+  obtain ⟨o, ho, h1, h2⟩ := hi.attObs a ha hobs
+  obtain ⟨_, _, _, h6⟩ := (log_matches_state ops a ha).2 o ho h1 h2
+  obtain ⟨pre, p, f, post, he, _, a0, ha0, k0, k1, k2, k3, _, _, _, k7, k8⟩ := log_provenance ops o ho
+  refine ⟨pre, p, f, post, he, a0, ha0, by omega, by omega, by omega, k0, k7, k8,
+    voters_power_le_total _ k7 p, ?_⟩
+  intro v hv
+  have := votes_were_cast pre a0 ha0 v hv
+  rw [show a0.nonce = a.nonce by omega, show a0.hash = a.hash by omega, show a0.eth = a.eth by omega] at this
+  exact this
+
+/-- **observed_heights_never_roll_back.** The remote heights of the observed claims never decrease, and the
+stored last height bounds them all — the guard `TryAttestation` checks before anything is written. -/
+theorem observed_heights_never_roll_back (ops : List Op) :
+    (run ops).log.Pairwise (fun o o' => o.eth ≤ o'.eth) ∧ ∀ o ∈ (run ops).log, o.eth ≤ (run ops).lastEth :=
+  ⟨(reachable_inv ops).ethMono, (reachable_inv ops).ethLe⟩
+
 /-- **observed_has_quorum.** `TryAttestation` marks an attestation observed only if the power
 (as read at this very tally) of its voters exceeds 66 % of the total; with `votes_nodup` every
 validator's power is counted at most once in that sum. -/
-theorem observed_has_quorum (s : St) (a : Att) (power : Nat → Nat) (total : Nat)
-    (h : (tryAtt s a power total).2 = .observedOk) :
-    100 * (a.votes.map power).sum > 66 * total ∧ a.nonce = s.lastObserved + 1 ∧ a.observed = false := by
-  unfold tryAtt at h
+theorem observed_has_quorum (s : St) (a : Att) (power : Nat → Nat) (total : Nat) (ef : EventFault)
+    (h : (tryAtt s a power total ef).2 = .observedOk ∨ (tryAtt s a power total ef).2 = .eventFailed) :
+    100 * (a.votes.map power).sum > 66 * total ∧ a.nonce = s.lastObserved + 1 ∧ a.observed = false ∧
+    s.lastEth ≤ a.eth ∧ (tryAtt s a power total ef).1 = observe s a := by
+  unfold tryAtt at h ⊢
   split at h
-  · cases h
+  · simp at h
   · rename_i hobs
     split at h
-    · cases h
+    · simp at h
     · rename_i hr
       split at h
-      · cases h
+      · simp at h
       · rename_i hn
-        have hr' : reaches power (66 * total / 100) a.votes 0 = true := by simpa using hr
-        have := reaches_sum power _ a.votes 0 hr'
-        refine ⟨by omega, by simpa using hn, by simpa using hobs⟩
+        split at h
+        · simp at h
+        · rename_i he
+          have hr' : reaches power (requiredPower total) a.votes 0 = true := by simpa using hr
+          simp only [hobs, hr, hn, he, if_false]
+          exact ⟨reaches_quorum power total a.votes hr', by simpa using hn, by simp, by omega, rfl⟩
+
+/-- **rejected_try_is_noop.** Every other outcome of `TryAttestation` — already observed, not enough power,
+out of order, remote height below the last observed one — leaves the state exactly as it was. In
+particular a refused height no longer consumes the nonce. -/
+theorem rejected_try_is_noop (s : St) (a : Att) (power : Nat → Nat) (total : Nat) (ef : EventFault)
+    (h : (tryAtt s a power total ef).2 = .nothing ∨ (tryAtt s a power total ef).2 = .abort) :
+    (tryAtt s a power total ef).1 = s := by
+  unfold tryAtt at h ⊢
+  by_cases h1 : a.observed = true
+  · simp [h1]
+  · by_cases h2 : (!reaches power (requiredPower total) a.votes 0) = true
+    · simp [h1, h2]
+    · by_cases h3 : a.nonce ≠ s.lastObserved + 1
+      · simp [h1, h2, h3]
+      · by_cases h4 : s.lastEth > a.eth
+        · simp [h1, h2, h3, h4]
+        · exfalso
+          simp only [h1, h2, h3, h4, if_false] at h
+          cases hf : ef a.nonce a.hash <;> simp [hf] at h
+
+/-- the outcome of `TryAttestation` is `abort` with the state untouched when the claim's remote height is
+below the last observed one (the branch repaired by 5e19ceda) -/
+theorem refused_height_is_noop (s : St) (a : Att) (power : Nat → Nat) (total : Nat) (ef : EventFault)
+    (h : a.eth < s.lastEth) :
+    (tryAtt s a power total ef).1 = s ∧ (tryAtt s a power total ef).2 ≠ .observedOk ∧
+    (tryAtt s a power total ef).2 ≠ .eventFailed := by
+  have h4 : s.lastEth > a.eth := h
+  unfold tryAtt
+  by_cases h1 : a.observed = true
+  · simp [h1]
+  · by_cases h2 : (!reaches power (requiredPower total) a.votes 0) = true
+    · simp [h1, h2]
+    · by_cases h3 : a.nonce ≠ s.lastObserved + 1
+      · simp [h1, h2, h3]
+      · simp [h1, h2, h3, h4]
 
 /-- **no_quorum_no_effect.** Without a voter prefix above the threshold nothing changes. -/
-theorem no_quorum_no_effect (s : St) (a : Att) (power : Nat → Nat) (total : Nat)
-    (hobs : a.observed = false) (h : 100 * (a.votes.map power).sum ≤ 66 * total) :
-    (tryAtt s a power total).1 = s := by
-  unfold tryAtt
-  simp only [hobs, Bool.false_eq_true, if_false]
-  have : reaches power (66 * total / 100) a.votes 0 = false := by
-    cases hr : reaches power (66 * total / 100) a.votes 0
-    · rfl
-    · have := reaches_sum power _ a.votes 0 hr; omega
-  simp [this]
+theorem no_quorum_no_effect (s : St) (a : Att) (power : Nat → Nat) (total : Nat) (ef : EventFault)
+    (h : 100 * (a.votes.map power).sum ≤ 66 * total) :
+    (tryAtt s a power total ef).1 = s := by
+  rcases tryAtt_cases s a power total ef with he | ⟨_, h2, _⟩
+  · exact he
+  · have := not_reaches_of_le power total a.votes h
+    rw [h2] at this; cases this
 
 /-- **applied_exactly_once_if_applicable.** When an attestation is observed its effect is applied
 in that same step exactly when the handler can apply it; the cursor advances either way. -/
-theorem applied_exactly_once_if_applicable (s : St) (a : Att) (power : Nat → Nat) (total : Nat)
-    (h : (tryAtt s a power total).2 = .observedOk) :
-    (tryAtt s a power total).1.lastObserved = a.nonce ∧
+theorem applied_exactly_once_if_applicable (s : St) (a : Att) :
+    (observe s a).lastObserved = a.nonce ∧
+    (observe s a).observations = s.observations ++ [mkObs s a] ∧
     (a.applicable = true →
-      (tryAtt s a power total).1.effects = s.effects ++ [{ nonce := a.nonce, hash := a.hash, cursorBefore := s.lastObserved }] ∧
-      (tryAtt s a power total).1.minted = s.minted + a.amount) ∧
+      (observe s a).effects = s.effects ++ [mkObs s a] ∧ (observe s a).minted = s.minted + a.amount) ∧
     (a.applicable = false →
-      (tryAtt s a power total).1.effects = s.effects ∧ (tryAtt s a power total).1.minted = s.minted) := by
-  unfold tryAtt at h ⊢
-  split at h
-  · cases h
-  · split at h
-    · cases h
-    · split at h
-      · cases h
-      · split at h
-        · cases h
-        · rename_i h1 h2 h3 h4
-          simp only [h1, h2, h3, h4, if_false]
-          refine ⟨rfl, ?_, ?_⟩
-          · intro hap; simp [hap]
-          · intro hap; simp [hap]
+      (observe s a).effects = s.effects ∧ (observe s a).minted = s.minted) := by
+  refine ⟨rfl, observations_observe s a, ?_, ?_⟩
+  · intro hap
+    refine ⟨?_, by simp [observe, hap]⟩
+    unfold St.effects
+    rw [observations_observe, List.filter_append]
+    simp [mkObs, hap]
+  · intro hap
+    refine ⟨?_, by simp [observe, hap]⟩
+    unfold St.effects
+    rw [observations_observe, List.filter_append]
+    simp [mkObs, hap]
 
 /-- **event_failure_loses_only_the_event.** Whether or not the observation event of an attestation
 can be emitted (the chain-info lookup behind it may fail), the state `TryAttestation` leaves is the
@@ -337,70 +1280,98 @@ theorem applied_exactly_once_under_event_failure (s : St) (a : Att) (power : Nat
     (tryAtt s a power total ef).1.lastObserved = a.nonce ∧
     (a.applicable = true → (tryAtt s a power total ef).1.minted = s.minted + a.amount) ∧
     (a.applicable = false → (tryAtt s a power total ef).1.minted = s.minted) := by
-  have e := event_failure_loses_only_the_event s a power total ef
-  have hok := e.2.1 h
-  have q := observed_has_quorum s a power total hok
-  have ap := applied_exactly_once_if_applicable s a power total hok
-  rw [e.1]
-  exact ⟨q.1, q.2.1, ap.1, fun hp => (ap.2.1 hp).2, fun hp => (ap.2.2 hp).2⟩
+  obtain ⟨q, hn, _, _, he⟩ := observed_has_quorum s a power total ef (Or.inr h)
+  rw [he]
+  exact ⟨q, hn, rfl, fun hp => by simp [observe, hp], fun hp => by simp [observe, hp]⟩
 
-/-- **consecutive_order / one_claim_per_nonce / applied_at_most_once.** Between governance
-resets: every observation happened at cursor+1, observed nonces strictly increase (so at most
-one claim per nonce is ever observed, and none twice), and the applied effects are a
-sub-sequence of the observations (each applied at most once, in nonce order). -/
-theorem effects_in_order (ops : List Op) :
-    (∀ e ∈ (run ops).observations, e.nonce = e.cursorBefore + 1) ∧
-    (run ops).observations.Pairwise (fun a b => a.nonce < b.nonce) ∧
-    (run ops).effects.Sublist (run ops).observations ∧
-    (run ops).effects.Pairwise (fun a b => a.nonce < b.nonce) := by
-  have hi := reachable_inv ops
-  exact ⟨hi.step1, hi.incr, hi.sub, hi.incr.sublist hi.sub⟩
-
-/-- **competing_claims_exclusive.** Two observations of one epoch with the same nonce are the
-same observation: competing claims at one nonce can never both take effect. -/
-theorem competing_claims_exclusive (ops : List Op) (e₁ e₂ : Effect)
-    (h₁ : e₁ ∈ (run ops).observations) (h₂ : e₂ ∈ (run ops).observations) (hn : e₁.nonce = e₂.nonce) :
-    e₁ = e₂ := by
-  have hp := (reachable_inv ops).incr
-  rcases List.mem_iff_getElem.mp h₁ with ⟨i, hi, rfl⟩
-  rcases List.mem_iff_getElem.mp h₂ with ⟨j, hj, rfl⟩
-  have hlt := List.pairwise_iff_getElem.mp hp
-  rcases Nat.lt_trichotomy i j with h | h | h
-  · have := hlt i j hi hj h; omega
-  · subst h; rfl
-  · have := hlt j i hj hi h; omega
-
-/-- **threshold_as_in_source.** The constants the model's `tryAtt` uses (`> 66 * total / 100`) are
-the ones in the current source: `AttestationVotesPowerThreshold = 66`, strict `GT`, divisor 100
-(regenerated by the extractor on every run). -/
+/-- **threshold_as_in_source.** The constants `tryAtt` uses (`requiredPower`, built from
+`votesPowerThreshold` and `powerDivisor`, compared strictly) ARE the ones in the current source:
+`AttestationVotesPowerThreshold`, divisor 100, comparator `GT` (regenerated by the extractor on every
+run), and they mean "more than 66 %". -/
 theorem threshold_as_in_source :
-    Paloma.Gen.Consts.attestationVotesPowerThreshold = 66 ∧
+    votesPowerThreshold = Paloma.Gen.Consts.attestationVotesPowerThreshold ∧
+    powerDivisor = Paloma.Gen.Consts.tryAttestationDivisor ∧
     Paloma.Gen.Consts.tryAttestationComparator = "GT" ∧
-    Paloma.Gen.Consts.tryAttestationDivisor = 100 ∧
-    Paloma.Gen.Consts.updateValidatorNoncesPeriod = 50 := by decide
+    Paloma.Gen.Consts.updateValidatorNoncesPeriod = 50 ∧
+    (∀ total, requiredPower total =
+      Paloma.Gen.Consts.attestationVotesPowerThreshold * total / Paloma.Gen.Consts.tryAttestationDivisor) ∧
+    (∀ (power : Nat → Nat) (total : Nat) (votes : List Nat),
+      reaches power (requiredPower total) votes 0 = true → 100 * (votes.map power).sum > 66 * total) :=
+  ⟨by decide, by decide, by decide, by decide, fun _ => rfl, reaches_quorum⟩
 
 /-- **vote_requires_next_nonce.** A validator's vote is accepted only for exactly the nonce
-after its last one. -/
-theorem vote_requires_next_nonce (s : St) (v n h eth : Nat) (ap : Bool) (amt : Nat)
-    (hok : (vote s v n h eth ap amt).2 = .ok) : n = lastNonceOf s v + 1 := by
-  unfold vote at hok
-  split at hok
-  · cases hok
-  · rename_i hn; simpa using hn
+after its last one, and only with the remote height the stored claim has; a rejected vote changes nothing. -/
+theorem vote_requires_next_nonce (s : St) (v n h eth : Nat) (ap : Bool) (amt : Nat) :
+    ((vote s v n h eth ap amt).2 = .ok → n = lastNonceOf s v + 1 ∧ (attFor s n h eth ap amt).eth = eth) ∧
+    ((vote s v n h eth ap amt).2 = .rejected → (vote s v n h eth ap amt).1 = s) := by
+  rcases vote_cases s v n h eth ap amt with ⟨hr, he⟩ | ⟨hok, hn, heth, _⟩
+  · exact ⟨fun hok => (by rw [hr] at hok; cases hok), fun _ => he⟩
+  · exact ⟨fun _ => ⟨hn, heth⟩, fun hr => (by rw [hok] at hr; cases hr)⟩
 
-/-! ### non-vacuity: validator 1 votes, the nonce is overridden, it votes again — counted once -/
+/-! ### non-vacuity (all through `run` from the initial state) -/
+
+/-- validator 1 votes, the nonce is overridden, it votes again — counted once; validator 2 joins; 70 of 100 -/
 def demo : List Op :=
   [ .vote 1 1 77 100 true 5, .override 0, .vote 1 1 77 100 true 5, .vote 2 1 77 100 true 5,
-    .tally [(1, 40), (2, 30), (3, 30)] 100 ]
+    .tally [(1, 40), (2, 30), (3, 30)] [] ]
 
 example : ((run demo).atts.map (·.votes)) = [[1, 2]] ∧ (run demo).lastObserved = 1 ∧
-    (run demo).minted = 5 ∧ (run demo).effects.length = 1 := by decide
+    (run demo).minted = 5 ∧ (run demo).effects.length = 1 ∧ (run demo).log.map (·.voters) = [[1, 2]] ∧
+    (run demo).epochStart = 0 ∧ (run demo).observations.map (·.nonce) = [1] := by decide
+/-- the hash assumption is satisfiable by a history with an effect -/
+example : HashIdentifiesClaim demo := by
+  intro v n h e ap am v' e' ap' am' h1 h2
+  simp only [demo, List.mem_cons, Op.vote.injEq, List.mem_nil_iff, reduceCtorEq, or_false, false_or] at h1 h2
+  rcases h1 with h1 | h1 | h1 <;> rcases h2 with h2 | h2 | h2 <;>
+    exact ⟨h1.2.2.2.2.1.trans h2.2.2.2.2.1.symm, h1.2.2.2.2.2.trans h2.2.2.2.2.2.symm⟩
+/-- a minority (40 of 100), however often it votes, moves nothing -/
 example : (run [.vote 1 1 77 100 true 5, .override 0, .vote 1 1 77 100 true 5,
-    .tally [(1, 40), (2, 30), (3, 30)] 100]).lastObserved = 0 := by decide
+    .tally [(1, 40), (2, 30), (3, 30)] []]).lastObserved = 0 := by decide
+/-- exactly 66 % is not enough, 67 % is -/
+example : (run [.vote 1 1 77 100 true 5, .tally [(1, 66), (2, 34)] []]).lastObserved = 0 ∧
+    (run [.vote 1 1 77 100 true 5, .tally [(1, 67), (2, 33)] []]).lastObserved = 1 := by decide
+/-- power is read at the tally: the same votes fail under one table and succeed under the next -/
+example : (run [.vote 1 1 77 100 true 5, .tally [(1, 10), (2, 90)] [], .tally [(1, 90), (2, 10)] []]).log.map
+    (·.voters) = [[1]] := by decide
 /-- two claims reach quorum in one block; the event of the first cannot be emitted: it is applied, the second waits -/
 example : (run [.vote 1 1 77 100 true 5, .vote 2 1 77 100 true 5, .vote 1 2 88 101 true 6, .vote 2 2 88 101 true 6,
-    .tallyFault [(1, 40), (2, 30), (3, 30)] 100 [(1, 77)]]).minted = 5 ∧
+    .tally [(1, 40), (2, 30), (3, 30)] [(1, 77)]]).minted = 5 ∧
   (run [.vote 1 1 77 100 true 5, .vote 2 1 77 100 true 5, .vote 1 2 88 101 true 6, .vote 2 2 88 101 true 6,
-    .tally [(1, 40), (2, 30), (3, 30)] 100]).minted = 11 := by decide
+    .tally [(1, 40), (2, 30), (3, 30)] []]).minted = 11 := by decide
+/-- competing claims at one nonce: only one is observed; a claim the handler cannot apply is observed
+(the cursor moves) without an effect -/
+example : (run [.vote 1 1 77 100 false 5, .vote 2 1 77 100 false 5, .vote 3 1 78 100 true 9,
+    .tally [(1, 40), (2, 30), (3, 30)] []]).observations.map (·.hash) = [77] ∧
+  (run [.vote 1 1 77 100 false 5, .vote 2 1 77 100 false 5, .vote 3 1 78 100 true 9,
+    .tally [(1, 40), (2, 30), (3, 30)] []]).effects = [] ∧
+  (run [.vote 1 1 77 100 false 5, .vote 2 1 77 100 false 5, .vote 3 1 78 100 true 9,
+    .tally [(1, 40), (2, 30), (3, 30)] []]).minted = 0 := by decide
+
+/-- A claim with quorum whose remote height (50) is below the last observed one (110): refused, and the
+oracle stays where it was — cursor 1, nothing observed or minted for nonce 2, and nonce 3 has to wait.
+Before 5e19ceda (`setLastObservedSkywayNonce` ran before `SetLastObservedEthereumBlockHeight`) the second
+tally of this very history left the cursor at 2 with nonce 2 unobserved, and the third tally observed
+nonce 3: effects at nonces 1, 3 — the full clause "strictly consecutive" was false (reproduced on the
+real keeper; recorded as `fixed` in known_findings.json; monitored by `no_nonce_gap` in the harness). -/
+def refusedHeight : List Op :=
+  [ .vote 1 1 77 110 true 5, .vote 2 1 77 110 true 5, .tally [(1, 40), (2, 30), (3, 30)] [],
+    .vote 1 2 88 50 true 6, .vote 2 2 88 50 true 6, .tally [(1, 40), (2, 30), (3, 30)] [],
+    .vote 1 3 99 130 true 7, .vote 2 3 99 130 true 7, .tally [(1, 40), (2, 30), (3, 30)] [] ]
+
+example : (run refusedHeight).lastObserved = 1 ∧ (run refusedHeight).lastEth = 110 ∧
+    (run refusedHeight).observations.map (·.nonce) = [1] ∧ (run refusedHeight).minted = 5 ∧
+    (run refusedHeight).atts.map (fun a => (a.nonce, a.observed)) = [(1, true), (2, false), (3, false)] := by decide
+
+/-- two epochs: observations 1, 2, a reset to 5, observations 6, 7 (nonce 6 by a non-applicable claim);
+the log keeps both epochs, the cursor is reset value + observations of the epoch -/
+def twoEpochs : List Op :=
+  [ .vote 1 1 11 100 true 5, .vote 2 1 11 100 true 5, .vote 1 2 12 101 true 6, .vote 2 2 12 101 true 6,
+    .tally [(1, 40), (2, 30), (3, 30)] [], .override 5,
+    .vote 1 6 16 105 false 7, .vote 2 6 16 105 false 7, .vote 1 7 17 106 true 8, .vote 2 7 17 106 true 8,
+    .tally [(1, 40), (2, 30), (3, 30)] [] ]
+
+example : (run twoEpochs).log.map (·.nonce) = [1, 2, 6, 7] ∧ (run twoEpochs).observations.map (·.nonce) = [6, 7] ∧
+    (run twoEpochs).effects.map (·.nonce) = [7] ∧ (run twoEpochs).epochStart = 5 ∧
+    (run twoEpochs).lastObserved = 7 ∧ (run twoEpochs).minted = 19 := by decide
 
 end Paloma.Oracle
